@@ -120,10 +120,15 @@ class AlignmentInfo:
         polya_exon_count, polyt_exon_count = polya_fixer.correct_read_info(self.read_exons, self.polya_info)
 
         if polya_exon_count > 0:
+            both_found = self.polya_info.internal_polya_pos != -1 and self.polya_info.external_polya_pos != -1
             self.polya_info.internal_polya_pos = shift_polya(self.read_exons, polya_exon_count,
                                                              self.polya_info.internal_polya_pos)
             self.polya_info.external_polya_pos = shift_polya(self.read_exons, polya_exon_count,
                                                              self.polya_info.external_polya_pos)
+            if both_found:
+                # the removed exons are tail: the tail starts where the internal scan says, not where the alignment ended
+                self.polya_info.external_polya_pos = min(self.polya_info.external_polya_pos,
+                                                         self.polya_info.internal_polya_pos)
             self.read_exons = self.read_exons[:-polya_exon_count]
             self.read_blocks = self.read_blocks[:-polya_exon_count]
             self.cigar_blocks = self.cigar_blocks[:-polya_exon_count]
@@ -131,10 +136,14 @@ class AlignmentInfo:
             self.exons_changed = True
 
         if polyt_exon_count > 0:
+            both_found = self.polya_info.internal_polyt_pos != -1 and self.polya_info.external_polyt_pos != -1
             self.polya_info.internal_polyt_pos = shift_polyt(self.read_exons, polyt_exon_count,
                                                              self.polya_info.internal_polyt_pos)
             self.polya_info.external_polyt_pos = shift_polyt(self.read_exons, polyt_exon_count,
                                                              self.polya_info.external_polyt_pos)
+            if both_found:
+                self.polya_info.external_polyt_pos = max(self.polya_info.external_polyt_pos,
+                                                         self.polya_info.internal_polyt_pos)
             self.read_exons = self.read_exons[polyt_exon_count:]
             self.read_blocks = self.read_blocks[polyt_exon_count:]
             self.cigar_blocks = self.cigar_blocks[polyt_exon_count:]
